@@ -295,6 +295,7 @@ type Program struct {
 	Panics   bool   `json:"panics"`
 	OOBKind  string `json:"oob_kind,omitempty"`
 	Shape    string `json:"shape"`
+	Target   string `json:"target,omitempty"` // "native" (default) or "wasm" (Node + runtime/wasm/runtime.js)
 	// probes
 	ValidAfterAppend int `json:"valid_after_append"`
 	NegReads         int `json:"negative_index_reads"`
@@ -316,6 +317,7 @@ func (p *Program) Subset(keep []int) *Program {
 	}
 	q := Build(top, p.consts)
 	q.Shape = p.Shape
+	q.Target = p.Target
 	return q
 }
 
